@@ -130,8 +130,13 @@ def generic_check(run, models_q, models_t, jobs_q, jobs_t, rule, corpus=False, f
     for flag, kind in ((sgoals, "set"), (tgoals, "table")):
         if flag:
             jl.append(kind_goal_job(run, kind, 16))
+            # the TLC-generated behaviours of that collection kind (Gen_map with Kind = set / table)
+            jl.append({"name": "%scorpus_w16" % kind, "backend": "sse2",
+                       "args": ["replay", "--seed", str(run.seed), os.path.join(vlib.VERIF, "corpus", "%s_w16.ndjson" % kind)]})
             if not quick:
                 jl.append(kind_goal_job(run, kind, 8))
+                jl.append({"name": "%scorpus_w8" % kind, "backend": "generic",
+                           "args": ["replay", "--seed", str(run.seed), os.path.join(vlib.VERIF, "corpus", "%s_w8.ndjson" % kind)]})
     if fault_corpus:
         jl.append(fault_corpus_job(run, 16))
         if not quick:
